@@ -168,6 +168,20 @@ def exc_info():
     raises_nothing()
 
 
+@assumed("pedal.sandbox.timeout:_verif_sync",
+         "verification hook: a no-op unless PEDAL_EDU_PEDAL_VERIF=1 and a checker installed a callback")
+def _verif_sync(point):
+    raises_nothing()
+
+
+@assumed("pedal.sandbox.timeout:current_thread_was_terminated",
+         "sequential view: the calling thread is not a worker that a timeout has abandoned (the abandoned worker's path "
+         "is the early return checked by the bounded stand-in B-timeout-schedules of C14)")
+def current_thread_was_terminated():
+    raises_nothing()
+    ensures(result is False)
+
+
 @target("pedal.sandbox.sandbox:Sandbox._execute")
 def _execute(self, code, filename, kind, threaded, **meta):
     requires(wf_sandbox(self) and not truthy(threaded) and is_dict(meta))
